@@ -17,7 +17,7 @@
 
    This file holds only statements, each closed by [exact] of a lemma from
    Proofs/, followed by Print Assumptions; plus pins and examples. *)
-From RM Require Import Model.EncPathSpec Model.HitObjectSpec Proofs.EncPathRT Proofs.EncPathImage Proofs.EncSlider Proofs.EncLineImage.
+From RM Require Import Model.EncPathSpec Model.HitObjectSpec Proofs.EncPathRT Proofs.EncPathImage Proofs.EncSlider Proofs.EncLineImage Proofs.EncMapImage.
 From RM Require Import Model.EncObjCarry Proofs.EncObjectsRT.
 From RM Require Import Model.EncSpec Proofs.EncFmt Proofs.EncShape Proofs.EncSimple Proofs.EncImage Proofs.EncObjects Proofs.EncRound Proofs.EncTiming.
 From RM Require Import Gen.Generated.
@@ -375,6 +375,32 @@ Theorem C04_path_image_is_decoder_image :
 Proof. exact convert_path_str_image. Qed.
 Print Assumptions C04_path_image_is_decoder_image.
 
+(* ... and that image survives the whole decoder (every line parser, the stable sort, the break
+   post-processing, the per-object loop): it holds of every hit object of every decoded map *)
+Theorem C04_decoded_objects_image :
+  forall dist lines m, decode_beatmap dist lines = Done m ->
+  Forall (fun h => object_image h = true) (hov_hit_objects (bmv_ho m)).
+Proof. exact decoded_objects_image. Qed.
+Print Assumptions C04_decoded_objects_image.
+
+(* "every non-blank line of [HitObjects] is accepted", for decoded maps: whatever the input,
+   if the objects of the decoded map are outside the recorded classes -- [residual]: D13 / D17 /
+   consecutive Catmull, D21 (written length), D26 (end time) -- and carry representable sample
+   data ([sample_ok]: not mechanised for the decoder's image), then every line the encoder
+   writes for them is accepted in every parser state and adds one object with the same start time *)
+Theorem C04_decoded_hit_object_lines_accepted :
+  forall fmt_f64 fmt_f32 fmt_int, fmt_ok fmt_f64 fmt_f32 fmt_int -> fmt_f32_int fmt_f32 fmt_int ->
+  forall dist lines m mode ls,
+  decode_beatmap dist lines = Done m ->
+  Forall (residual dist) (hov_hit_objects (bmv_ho m)) ->
+  object_lines dist mode (hov_hit_objects (bmv_ho m)) = Done ls ->
+  Forall2 (fun h l => ho_accepted fmt_f64 fmt_f32 fmt_int (h_start h) l) (hov_hit_objects (bmv_ho m)) ls.
+Proof.
+  intros f64 f32 fi Hfmt H32 dist lines m mode ls H1 H2 H3.
+  exact (decoded_hit_object_lines_accepted f64 f32 fi Hfmt H32 dist lines m mode ls H1 H2 H3).
+Qed.
+Print Assumptions C04_decoded_hit_object_lines_accepted.
+
 (* D26 (known finding): [object_ok] does not hold of every decoded spinner / hold -- the end time
    start + duration can exceed the parse limit by rounding; the line is then rejected in every
    state, for every formatting function, and the decoded object is lost on re-read *)
@@ -431,13 +457,14 @@ Print Assumptions C04_timing_line_accepted.
    Hit-object lines, what is left [P]:
      "every non-blank line of [HitObjects] is accepted for every decoded map outside the recorded
      classes": proved above for every list of [encodable] objects
-     (C04_hit_object_lines_accepted).  [encodable] on the decoder's image is proved at LINE level
-     for start time, position, combo offset, control points, repeat count, node count and explicit
-     length (C04_accepted_line_object_image); NOT mechanised: carrying these through the map-level
-     processing (stable sort, break post-processing, SamplePoint::apply of MapLevel.v -- none of
-     which touches those fields) and [sample_ok] of the processed samples.  Not invariants at
-     all (recorded classes): start + duration within the parse limits (D26), the computed length
-     of a slider without explicit length (D21), D13 / D17 / consecutive Catmull (C02).
+     (C04_hit_object_lines_accepted) and for every decoded map whose objects satisfy [residual]
+     (C04_decoded_hit_object_lines_accepted): start time, position, combo offset, control points,
+     repeat count, node count and explicit length are proved of every object of every decoded
+     map (C04_accepted_line_object_image, C04_decoded_objects_image).  NOT mechanised:
+     [sample_ok] of the processed samples (custom index / volume within i32, file names free of
+     `,` `:` `//`).  Not invariants at all (recorded classes, hypotheses of [residual]): start +
+     duration within the parse limits (D26), the computed length of a slider without explicit
+     length (D21), D13 / D17 / consecutive Catmull (C02).
      T04c in full for hit objects (samples up to carry): C02's T02b.
    Covered by the `enc` correspondence (slider files included, curve and slider-event models
    connected) and by the C04 / C02 oracles (each encoded hit-object line is parsed, kind and
